@@ -33,7 +33,14 @@ VALGRIND = ["valgrind", "--tool=memcheck", "--error-exitcode=92", "--track-origi
 def _specx_objects(tsan):
     return [("h_specx_main.cpp", [], "main"), ("rt/sched.cpp", [], "sched")] + [("h_specx_tu.cpp", ["VH_DIM=%d" % d, "VH_TSAN=%d" % tsan], "d%d" % d) for d in (2, 3)]
 
+def _starpu_objects(tsan):
+    return [("h_starpu_main.cpp", [], "main"), ("rt/sched.cpp", [], "sched")] + [("h_starpu_tu.cpp", ["VH_DIM=%d" % d, "VH_TSAN=%d" % tsan], "d%d" % d) for d in (2, 3)]
+_MOCK = __import__("os").path.join(__import__("os").path.dirname(__import__("os").path.dirname(__import__("os").path.abspath(__file__))), "harness", "mock")
+
 BINARIES = {
+    "h_starpu": {"flavour": "asan", "objects": _starpu_objects(0), "cflags": ["-fopenmp", "-I" + _MOCK + "/starpu"], "ldflags": ["-lpthread"],
+                 "about": "StarPU executors (plain and target/source) compiled against a mock of the StarPU C API implemented on the harness scheduler (our reading of the documented contract, not the runtime)"},
+    "h_starpu_tsan": {"flavour": "tsan", "objects": _starpu_objects(1), "cflags": ["-fopenmp", "-I" + _MOCK + "/starpu"], "ldflags": ["-lpthread"], "about": "same under ThreadSanitizer with wave policies"},
     "h_specx": {"flavour": "asan", "objects": _specx_objects(0), "cflags": ["-fopenmp", "-I" + __import__("os").path.join(__import__("os").path.dirname(__import__("os").path.dirname(__import__("os").path.abspath(__file__))), "harness", "mock", "specx")], "ldflags": ["-lpthread"],
                 "about": "Specx executors (plain and target/source) compiled against a mock of the Specx API implemented on the harness scheduler (our reading of the documented contract, not the runtime)"},
     "h_specx_tsan": {"flavour": "tsan", "objects": _specx_objects(1), "cflags": ["-fopenmp", "-I" + __import__("os").path.join(__import__("os").path.dirname(__import__("os").path.dirname(__import__("os").path.abspath(__file__))), "harness", "mock", "specx")], "ldflags": ["-lpthread"],
@@ -149,7 +156,8 @@ CHECKS = {
         "technique": "runtime monitoring under a controlled scheduler: OpenMP executors linked against a GOMP-ABI shim that records declared dependencies and runs every task under hostile legal schedules; offline O-dag checker (observed conflicting accesses vs declared graph), bit-exact comparison with the sequential executor, ASan (stack-use-after-return/scope) and TSan builds",
         "claim": "For every explored tree and schedule (10 policies incl. full deferral, LIFO, random, priority-inverted, waves; 1..16 threads; random worker assignment) the OpenMP executors left the tree bit-identical to the sequential one; every pair of tasks observed to touch the same cell/leaf object with a writer was ordered by the declared dependencies (so every linear extension of the observed graphs is conflict-free); no task read a dead variable (ASan) and overlapping tasks showed no data race (TSan).",
         "note": "Trusted: the shim's reading of the GOMP ABI (argument block copy, depend[] layout, priority) and of OpenMP task-dependence semantics; access sets are observed at cell/leaf granularity by the probe kernel. Specx/StarPU executors are not covered in this round (no mock runtime yet) - stated in DESIGN.md.",
-        "jobs": [{"bin": "h_sched", "mode": "c03"}, {"bin": "h_sched_tsan", "mode": "c03"}, {"bin": "h_specx", "mode": "c03", "thorough_only": True}, {"bin": "h_specx_tsan", "mode": "c03", "thorough_only": True}],
+        "jobs": [{"bin": "h_sched", "mode": "c03"}, {"bin": "h_sched_tsan", "mode": "c03"}, {"bin": "h_specx", "mode": "c03", "thorough_only": True}, {"bin": "h_specx_tsan", "mode": "c03", "thorough_only": True},
+                 {"bin": "h_starpu", "mode": "c03", "thorough_only": True}, {"bin": "h_starpu_tsan", "mode": "c03", "thorough_only": True}],
         "rule": "case = one random tree (Dim 1..3, Morton and periodic Morton, heights up to 5..8, small block sizes so that many tasks exist) executed by TbfOpenmpAlgorithm under a set of schedules: quick = each of the 10 policies with a random thread count in {1,2,3,4,8,16} + single-thread full deferral + a 16-thread wave; thorough = every policy x every thread count; TSan build = wave policies on 2..16 threads. non-trivial = more than 3 tasks per schedule; distinct = tree signature. Evidence counts tasks, declared edges, conflicting pairs checked, distinct execution orders, max overlap.",
         "require_events": ["schedules-executed", "tasks-executed", "dag-conflicting-pairs-checked", "distinct-execution-orders"],
         "assumptions": ["task bodies are deterministic functions of the data they access (checked by observation: bit-identical results under all schedules)"],
@@ -159,7 +167,7 @@ CHECKS = {
         "technique": "runtime monitoring: exact probe kernels (per-source multiset, polynomial) on target/source trees against the coordinate model and the direct sum; OpenMP target/source executor under the scheduler shim with O-dag/O-seq/P-rec and ASan",
         "claim": "On every explored pair of source/target sets each target accumulated exactly one contribution from each source (model count when periodic), nothing else; source multipoles and target locals equalled the model cell by cell; the OpenMP target/source executor gave bit-identical trees under all explored schedules with all observed conflicts ordered by declared dependencies.",
         "note": "Sources carry no result storage and targets no multipoles by type (NbRhs=0 / void_data), which is observed by the recorder never being handed such an object.",
-        "jobs": [{"bin": "h_fmm", "mode": "c09"}, {"bin": "h_sched", "mode": "c09"}, {"bin": "h_specx", "mode": "c09", "thorough_only": True}],
+        "jobs": [{"bin": "h_fmm", "mode": "c09"}, {"bin": "h_sched", "mode": "c09"}, {"bin": "h_specx", "mode": "c09", "thorough_only": True}, {"bin": "h_starpu", "mode": "c09", "thorough_only": True}],
         "rule": "case = independent source and target sets (independent / disjoint halves / identical positions / sources in one leaf / targets in one leaf / single source or target) x distributions x geometry x block sizes x both modes; OpenMP executor under the C03 schedule sets (h_sched). non-trivial = more than 3 tasks per schedule (h_sched) / at least one far or near leaf pair (h_fmm); distinct = configuration hash.",
         "require_events": ["schedules-executed", "tasks-executed", "poly-results-checked", "tsm-pairs-checked", "tsm-cells-checked"],
         "assumptions": [],
@@ -280,8 +288,11 @@ for _c in c19_cells("thorough"):
         "objects": [("cfg_tu.cpp", ["VC_DIM=%d" % _c[0], "VC_REALF=%d" % _c[1], "VC_ORD=%d" % _c[2], "VC_AUTO=%d" % _c[3], "VC_REBUILD=%d" % _c[4], "VC_EXEC=%d" % _c[5], "VC_VARIANT=%d" % _c[6]], "main"), ("rt/sched.cpp", [], "sched")],
         "about": "C19 configuration cell"}
 
+BINARIES["cfg_selector"] = {"flavour": "asan", "cflags": ["-fopenmp", "-I" + _MOCK + "/specx", "-I" + _MOCK + "/starpu"], "ldflags": ["-lpthread"],
+    "objects": [("sel_tu.cpp", [], "main"), ("rt/sched.cpp", [], "sched")], "about": "C19: selector header with OpenMP+Specx+StarPU all defined, against the mock runtime headers"}
+
 def quick_setup_binaries():
-    return [_cell_name(c) for c in c19_cells("quick")]
+    return [_cell_name(c) for c in c19_cells("quick")] + ["cfg_selector"]
 
 def run_c19(V, cid, tier, seed):
     """Build every cell (a compile error inside /repo/src is a verdict, not a harness failure), then run the cells that built."""
@@ -289,6 +300,9 @@ def run_c19(V, cid, tier, seed):
     t0 = time.time()
     cells = c19_cells(tier)
     recs, built = [], {}
+    cells = list(cells) + ["selector"]
+    _orig_name = globals()["_cell_name"]
+    _cell_name = lambda c: "cfg_selector" if c == "selector" else _orig_name(c)
     def build_one(c):
         try: return c, V.build([_cell_name(c)], quiet=True)[_cell_name(c)], None
         except V.BuildError as e: return c, None, e.err
@@ -321,7 +335,7 @@ CHECKS["C19"] = {
     "level": EXPL,
     "technique": "build probe (observation of the compiler on one translation unit per documented configuration) + runtime monitoring of each configuration's program with the C01/C06/C13 oracles under ASan/UBSan",
     "claim": "Every explored cell of the documented matrix (dimension 1..4 x float/double x Morton/periodic Morton/Hilbert(3D) x automatic/explicit block size x with/without rebuild x sequential/OpenMP/target-source executor, plus data type != coordinate type and zero result values) compiled, and its program satisfied the exactly-once, construction and rebuild oracles on a seeded sample of trees.",
-    "note": "The compile half is a build probe, not runtime monitoring (it is the observable the property names). Quick runs a 24-cell covering subset, thorough the full matrix (280 cells). The selector header with OpenMP+Specx+StarPU all defined needs mock runtime headers and is not covered in this round.",
+    "note": "The compile half is a build probe, not runtime monitoring (it is the observable the property names). Quick runs a 24-cell covering subset, thorough the full matrix (280 cells). The selector header with OpenMP+Specx+StarPU all defined is compiled and run against the mock runtime headers (harness/mock).",
     "jobs": [],
     "rule": "case = one seeded tree of one configuration cell, cycling through construction (C06 oracle), exactly-once through the configured executor (C01 oracle: P-set/P-poly, OpenMP under the scheduler shim with O-seq/O-dag, target/source, counting kernels for the data-type and zero-rhs variants), rebuild cycles (C13 oracle) or structure (cells without rebuild). non-trivial as in the contributing oracles; distinct = (cell, case signature).",
     "require_events": ["cell-cases", "cells-built"],
